@@ -147,6 +147,7 @@ func TestWorker(t *testing.T) {
 	if stride <= 0 {
 		stride = 1
 	}
+	executed := 0
 	for i := job.From; i < job.To; i += stride {
 		if job.Deadline > 0 && time.Now().Unix() > job.Deadline {
 			break
@@ -162,7 +163,8 @@ func TestWorker(t *testing.T) {
 		// every bubble leaves blocked goroutines behind (the loader's update loop never
 		// exits) and with them whatever they reference: recycle the process before it grows
 		// large; the driver starts a fresh worker at the next run index
-		if i%16 == 0 {
+		executed++
+		if executed%8 == 0 {
 			var ms runtime.MemStats
 			runtime.ReadMemStats(&ms)
 			if ms.HeapInuse > 1200<<20 {
